@@ -20,6 +20,7 @@ type lfile struct {
 	path   []string
 	length int64
 	pad    bool
+	attr   string // attr string of the metainfo when it is not just "p" / absent
 	offset int64
 }
 
@@ -108,8 +109,15 @@ func genTree(t *rapid.T, lb string, dir []string, depth int, budget *int, pool *
 		}
 		*budget--
 		f := lfile{path: p, length: genLen(t, el+".len")}
-		if rapid.IntRange(0, 6).Draw(t, el+".pad") == 0 {
+		switch rapid.IntRange(0, 8).Draw(t, el+".pad") {
+		case 0:
 			f.pad = true
+		case 1:
+			// BEP 47: attr is a set of flag letters; "p" among others still means padding
+			f.pad, f.attr = true, rapid.SampledFrom([]string{"hp", "ph", "xp", "lhp"}).Draw(t, el+".attr")
+		case 2:
+			// other flags do not make a file padding
+			f.attr = rapid.SampledFrom([]string{"x", "h", "hx", "l"}).Draw(t, el+".attr")
 		}
 		*out = append(*out, f)
 	}
@@ -198,7 +206,7 @@ func (lt *ltor) spec() *webfix.Spec {
 	}
 	s.Files = []webfix.File{}
 	for _, f := range lt.files {
-		s.Files = append(s.Files, webfix.File{Path: f.path, Length: f.length, Pad: f.pad})
+		s.Files = append(s.Files, webfix.File{Path: f.path, Length: f.length, Pad: f.pad, Attr: f.attr})
 	}
 	return s
 }
